@@ -12,7 +12,7 @@ from __future__ import annotations
 import asyncio
 
 from vf.gen import hdlc_gen, p1_gen, splits
-from vf.mon import hdlc_mon, p1_mon, resync
+from vf.mon import clock, hdlc_mon, p1_mon, resync
 from vf.props import c01 as c01mod
 from vf.props import c02 as c02mod
 from vf.ref import p1_ref
@@ -46,7 +46,7 @@ def _ensure_loop():
 def plan(tier: str, seed: int) -> list[dict]:
     shards = [{"kind": "gen", "n": N_CASES[tier]} for _ in range(15)]
     shards.append({"kind": "socket", "n": 12 if tier == "quick" else 400})
-    shards.append({"kind": "long_lived", "n": 2, "messages": 12000 if tier == "quick" else 60000})
+    shards.append({"kind": "long_lived", "n": 2, "messages": 12500 if tier == "quick" else 60000})
     return shards
 
 
@@ -108,6 +108,7 @@ def run_protocol(chunks, cand_kind, cfg, payload_mode: bool, ctx, case):
     proto = cls(q, make_candidates(cand_kind, cfg))
     fed = []
     for ch in chunks:
+        clock.tick()
         try:
             proto.data_received(ch)
         except Exception as ex:
@@ -367,8 +368,10 @@ def run_long_lived(shard, ctx) -> None:
             except Exception as ex:
                 ctx.count("data_received_raised(decided by C14)")
                 break
-            while not q.empty():
-                got.append(bytes(q.get_nowait()))
+            if variant % 2 == 1 or k == n_msgs - 1:
+                # variant 0 lets the queue fill up (a consumer that is busy for a while): nothing may be dropped from it
+                while not q.empty():
+                    got.append(bytes(q.get_nowait()))
         ctx.count("long_lived_messages", len(sent))
         ctx.case(f"long{variant}{ctx.seed}", True, len(sent))
         if got != sent:
